@@ -278,6 +278,8 @@ class C19(Sim):
         "the parameter of an exported vertex is the one the export itself records (attributes 't' / 'uv_coords'), which must form the regular grid linspace(0,1,n)",
         "exported surface cells may be one quad or two triangles per grid cell, any orientation",
         "rejected parameters are at least 1e-9 outside [0,1] (no claim about the last ulp), finite or infinite, never NaN; any Exception counts as a rejection",
+        "faults_on is drawn in gen_config (p = 1/2) instead of taken from the seed's parity, because the PRNG mode (engine key 'prng_mode') must be "
+        "'shared_stream' exactly in the faulted runs and gen_config does not see the seed; fault-free runs are 'per_call' (3/4) or 'shared_stream' without noise (1/4)",
         "Bezier exports: control points of dimension 2 or 3 for as_polyline (2-D is documented by the code to be padded with z=0), dimension 3 for as_surface",
     ]
     COMPONENTS = {"real": ["mouette.sampling", "mouette.splines.bezier", "mouette.geometry.AABB/Vec", "mouette.attributes (edge_length, face_area, face_normals)",
